@@ -28,6 +28,7 @@ DataPack.build(), in program order (see coq/Model/Alloc.v for their meaning):
    ["called", path, prefix]               datapack.functions_called[path] = ...
    ["upriv", path, prefix]                datapack.user_private_functions[path] = prefix
    ["lazy", path] / ["lazydel", path]     datapack.lazy_func
+   ["def", path]                          datapack.defined_file_pos[path] = ...   (a NAME is defined: function, @lazy/@if function, json)
    ["build", {...}]                       entry of DataPack.build(): the lists build() consumes
 """
 import json
@@ -200,6 +201,16 @@ def install():
                 T.log("lazydel", k)
             dict.__delitem__(self, k)
 
+    class DefPosDict(dict):
+        def __setitem__(self, k, v):
+            if T.active:
+                T.log("def", k)
+            dict.__setitem__(self, k, v)
+
+        def __delitem__(self, k):
+            T.unsupported.append("defined_file_pos entry deleted")
+            dict.__delitem__(self, k)
+
     # ---------------------------------------------------------------- DataPack
     d_init = DataPack.__init__
 
@@ -211,6 +222,8 @@ def install():
         self.functions_called = CalledDict()
         self.user_private_functions = UPrivDict()
         self.lazy_func = LazyDict()
+        if isinstance(getattr(self, "defined_file_pos", None), dict) and not self.defined_file_pos:
+            self.defined_file_pos = DefPosDict()
         T.datapack = self
         T.active = True
     DataPack.__init__ = dp_init
